@@ -84,6 +84,13 @@ func dump(b *strings.Builder, v reflect.Value) {
 	}
 }
 
+func meth(id string, v any, to, from string) {
+	t := reflect.TypeOf(v)
+	_, a := t.MethodByName(to)
+	_, b := t.MethodByName(from)
+	fmt.Printf("M %s %v %v\n", id, a, b)
+}
+
 func run(id string, f func() any) {
 	defer func() {
 		if r := recover(); r != nil {
@@ -167,7 +174,8 @@ def values_file(pair, pkg):
                 expr = "&" + mapgen.render_go_value(spec, t, v, here)
                 _collect_pkgs(spec, t, used)
             body.append("func Verif%s%d() *%s { return %s }\n" % (tag, k, tn, expr))
-    used.discard(here)
+    text = "\n".join(body)
+    used = {p for p in ("src", "dst", "common", "mapper") if p != here and (mapgen.QUALS[p] + ".") in text}
     imp = mapgen._imports(used, here, "vmod", pair.sub)
     return "package %s\n\n%sfunc ptrOf[T any](v T) *T { return &v }\n\nvar _ = ptrOf[int]\n\n%s" % (pkgname, imp, "\n".join(body))
 
@@ -204,6 +212,7 @@ def main_file(pairs):
         if need_d:
             imps.append('\t%s "vmod/%s/dest"' % (d, p.sub))
         to_name, from_name = mapgen.method_names(p.spec)
+        calls.append('\tmeth("%d", &%s.%s{}, "%s", "%s")' % (p.idx, s, p.spec["root"], to_name, from_name))
         for k, c in enumerate(p.cases):
             cid = "%d.%d" % (p.idx, k)
             if c["dir"] == "to":
@@ -261,13 +270,17 @@ def execute(run, pairs, shoot=None, par=6, pre=None, tag="b"):
     if rc != 0:
         raise lib.CheckBroken("oracle program failed: rc=%s %s" % (rc, err[-3000:]))
     obs = {}
+    meths = {}
     for line in out.splitlines():
         f = line.split(" ", 3)
         if len(f) >= 3 and f[0] == "C":
             obs[f[1]] = (f[2], f[3] if len(f) > 3 else "")
+        elif len(f) >= 4 and f[0] == "M":
+            meths[f[1]] = (f[2] == "true", f[3] == "true")
     for p in pairs:
         if p.status != "ok":
             continue
+        p.methods = meths.get(str(p.idx))
         for k, c in enumerate(p.cases):
             o = obs.get("%d.%d" % (p.idx, k))
             if o is None:
@@ -305,7 +318,7 @@ HEADER = ("From Coq Require Import String List ZArith NArith Bool.\n"
           "Set Printing Width 1000000.\nSet Printing Depth 1000000.\n")
 
 
-def coq_verdicts(run, pairs, tag="mc", shard_cases=250, par=6, extra_defs=""):
+def coq_verdicts(run, pairs, tag="mc", shard_cases=250, par=6, extra_defs="", fn="mismatches", cert=None):
     """returns {(pair idx, case idx): verdict} for the non-zero verdicts, and {pair idx: in_guard}"""
     shards, cur, n = [], [], 0
     for p in pairs:
@@ -332,11 +345,20 @@ def coq_verdicts(run, pairs, tag="mc", shard_cases=250, par=6, extra_defs=""):
         guards = "Definition G := Eval vm_compute in [%s].\nPrint G.\n" % "; ".join(
             "(%d%%N, if pair_guard (ps_env PS%d) (ps_fuel PS%d) (ps_jobs PS%d) then 1%%N else 0%%N)" % (p.idx, p.idx, p.idx, p.idx)
             for p in ps)
+        ways = "Definition W := Eval vm_compute in way_mismatches [%s].\nPrint W.\n" % "; ".join(
+            "(%d%%N, PS%d, %s, %s)" % (p.idx, p.idx, "true" if p.methods[0] else "false", "true" if p.methods[1] else "false")
+            for p in ps if getattr(p, "methods", None))
         body = (HEADER + extra_defs + "\n".join(defs) + "\nDefinition cases : list case := [\n%s\n].\n"
-                "Definition M := Eval vm_compute in mismatches cases.\nPrint M.\n%s" % (";\n".join(terms), guards))
+                "Definition M := Eval vm_compute in %s cases.\nPrint M.\n%s%s" % (";\n".join(terms), fn, guards, ways))
+        if cert is not None:
+            body += "Definition UC := Eval vm_compute in uncertified cases.\nPrint UC.\n"
         out = run.coq_eval("%s_%d" % (tag, k), body)
         res = {index[i]: v for i, v in lib.parse_coq_list_pairs(out, "M")}
+        if cert is not None:
+            cert.extend(index[i] for i, _ in lib.parse_coq_list_pairs(out, "UC"))
         g = {i: bool(v) for i, v in lib.parse_coq_list_pairs(out, "G")}
+        for i, v in lib.parse_coq_list_pairs(out, "W"):
+            res[(i, -1)] = v
         return res, g
     verdicts, guards = {}, {}
     with cf.ThreadPoolExecutor(max_workers=par) as ex:
@@ -360,3 +382,36 @@ def replay_dict(pair, ci=None, verdict=None, extra=None):
 
 def dumps(x):
     return json.dumps(x, default=str)
+
+
+# ------------------------------------------------------------------ known-finding witnesses
+def witness_outcome(run, shoot, finding, check=None):
+    """run the witness of a known finding; returns 'buggy' | 'correct' | 'other: …'
+    compile-type witnesses: buggy = the generated package does not build;
+    witnesses with a main program: it prints BUGGY / CORRECT"""
+    w = finding["witness"]
+    mod = l2.make_module(run, "kf_" + finding["id"])
+    (mod / "go.mod").write_text((mod / "go.mod").read_text().replace("module kf_" + finding["id"], "module vmod"))
+    files = {"src/src.go": w["src"], "dest/dest.go": w["dest"]}
+    if "common" in w:
+        files["common/common.go"] = w["common"]
+    l2.write_files(mod, files)
+    r = l2.run_shoot(shoot, mod / "src", w.get("args", ["map", "-path=../dest", "-type=T"]), timeout=60)
+    if check:
+        return check(r, mod)
+    if r["panicked"]:
+        return "other: shoot panicked: " + r["err"][-300:]
+    if r["rc"] != 0:
+        return "other: shoot exit %d: %s" % (r["rc"], r["err"][-300:])
+    if "main" in w:
+        l2.write_files(mod, {"zmain/main.go": w["main"]})
+        rc, out, err = l2.go_run(mod, "./zmain", timeout=300)
+        if rc != 0:
+            return "other: witness program failed: " + err[-300:]
+        o = out.strip()
+        return {"BUGGY": "buggy", "CORRECT": "correct"}.get(o, "other: " + o[:200])
+    ok, errs = l2.go_build(mod, ("./src",))
+    if ok:
+        return "correct"
+    txt = " ".join(" ".join(v) for v in errs.values())
+    return "buggy" if "undefined" in txt else "other: " + txt[:300]
